@@ -1062,6 +1062,50 @@ def np_copy(interp, st, args, kwargs, node):
     return args[0]
 
 
+def np_pad(interp, st, args, kwargs, node):
+    """np.pad(a, pad_width, mode='constant', constant_values=c) with constant integer widths"""
+    M = _M()
+    a = args[0]
+    pw = kwargs.get("pad_width", args[1] if len(args) > 1 else None)
+    mode = kwargs.get("mode", "constant")
+    cv = kwargs.get("constant_values", 0)
+    if mode != "constant" or not isinstance(a, Grid) or not is_scalar(cv):
+        raise Outside("np.pad outside constant mode on an array with a scalar fill", node)
+    if isinstance(pw, Arr):
+        pw = [tuple(r.flat) for r in pw.rows()]
+    if not (isinstance(pw, (tuple, list)) and len(pw) == a.rank and all(isinstance(x, (tuple, list)) and len(x) == 2 and all(isinstance(v, int) and v >= 0 for v in x) for x in pw)):
+        raise Outside("np.pad with non-constant pad widths", node)
+    dims = [M.s_add(d, b + e) for d, (b, e) in zip(a.dims, pw)]
+
+    def fn(idx):
+        inside = z3.And(*[z3.And(i >= b, i < to_z3(M.s_add(d, b))) for i, d, (b, e) in zip(idx, a.dims, pw)])
+        src = a.select([i - b for i, (b, e) in zip(idx, pw)])
+        return z3.If(inside, src, to_z3(cv) if V.sort_of(cv) == src.sort() else (z3.If(to_z3(cv), 1, 0) if src.sort() == z3.IntSort() and V.sort_of(cv) == z3.BoolSort() else to_z3(cv)))
+
+    return M.grid_lambda(dims, a.kind, fn, a.dtype)
+
+
+def np_repeat(interp, st, args, kwargs, node):
+    """np.repeat(a, k, axis=ax) with a constant positive k: out[..., i, ...] = a[..., i // k, ...]"""
+    M = _M()
+    a = args[0]
+    k = kwargs.get("repeats", args[1] if len(args) > 1 else None)
+    axis = kwargs.get("axis", args[2] if len(args) > 2 else None)
+    if not isinstance(a, Grid) or not isinstance(k, int) or k <= 0 or not isinstance(axis, int):
+        raise Outside("np.repeat outside (array, constant count, axis)", node)
+    if axis < 0:
+        axis += a.rank
+    dims = list(a.dims)
+    dims[axis] = M.s_mul(dims[axis], k)
+
+    def fn(idx):
+        src = list(idx)
+        src[axis] = idx[axis] / k
+        return a.select(src)
+
+    return M.grid_lambda(dims, a.kind, fn, a.dtype)
+
+
 class WhereResult:
     """np.where(mask) before it is stacked into coordinates"""
 
@@ -1333,6 +1377,8 @@ LIBFUNCS = {
     "np.sort": np_sort,
     "np.copy": np_copy,
     "np.where": np_where,
+    "np.pad": np_pad,
+    "np.repeat": np_repeat,
     "np.column_stack": np_column_stack,
     "np.argwhere": np_argwhere,
     "np.int8": np_int8,
@@ -1397,6 +1443,16 @@ def m_max(interp, st, base, base_node, args, kwargs, node):
     M = _M()
     if isinstance(base, Arr) and base.flat:
         return _reduce_arr(base, M.s_max, kwargs.get("axis"))
+    if isinstance(base, Grid) and base.kind == "int" and not args and "axis" not in kwargs:
+        _trust("ndarray.max(): an element that is >= every element; ValueError on an empty array")
+        size_pos = b_and(*[M.s_cmp(ast.Gt(), d, 0) for d in base.dims])
+        interp.raise_if(st, b_not(size_pos), "ValueError", node)
+        m = z3.Int(V.fresh_name("max"))
+        vars_ = [z3.Int(V.fresh_name("q")) for _ in base.dims]
+        rng = z3.And(*[z3.And(x >= 0, x < to_z3(d)) for x, d in zip(vars_, base.dims)])
+        st.assume(z3.ForAll(vars_, z3.Implies(rng, base.select(vars_) <= m)))
+        st.assume(z3.Exists(vars_, z3.And(rng, base.select(vars_) == m)))
+        return m
     raise Outside("max() of grid", node)
 
 
@@ -1555,6 +1611,7 @@ METHODS = {
     ("Grid", "copy"): m_copy,
     ("Arr", "argmax"): m_argmax,
     ("Arr", "max"): m_max,
+    ("Grid", "max"): m_max,
     ("Arr", "tolist"): m_tolist,
     ("list", "append"): m_list_append,
     ("SymList", "append"): m_list_append,
